@@ -40,7 +40,7 @@ PASSWORDS = {
 }
 
 REPLY_KINDS = ('OK', 'OKA', 'OKS', 'OKE', 'NO', 'AGAIN', 'MORE', 'UNL', 'BLAH')
-ACCOUNT_KINDS = ('OKA', 'OKS')      # OK replies that carry an account (OKS: a shorter one without stamp suffix)
+ACCOUNT_KINDS = ('OKA', 'OKS', 'OKT')      # OK replies that carry an account (OKS: a shorter one without stamp suffix; OKT: followed by free text)
 TAG_KINDS = ('cur', 'old', 'bare', 'trunc', 'noid', 'junk', 'zz', 'wrongserial', 'wideid', 'wideserial')
 # wideid / wideserial: the live tag with 2^32 added to the id / the serial - numbers that denote somebody else, whatever a 32-bit variable makes of them
 MALFORMED_TAGS = ('bare', 'trunc', 'noid', 'junk', 'zz', 'wrongserial', 'wideid', 'wideserial')
@@ -57,7 +57,7 @@ def reply_text(kind, i, svc):
     if ov and kind in ov:
         return ov[kind]
     return {
-        'OK': 'OK', 'OKA': 'OK %s:7' % account_for(i, svc), 'OKS': 'OK s%d' % (abs(i) % 10), 'OKE': 'OK ',
+        'OK': 'OK', 'OKA': 'OK %s:7' % account_for(i, svc), 'OKS': 'OK s%d' % (abs(i) % 10), 'OKE': 'OK ', 'OKT': 'OK t%d:5 last seen from 2 other sessions' % (abs(i) % 10),
         'NO': 'NO go away %s from %s' % (i, svc), 'AGAIN': 'AGAIN try again %s' % i,
         'MORE': 'MORE say more %s' % i, 'UNL': None, 'BLAH': 'BLAH what',
     }[kind]
@@ -103,6 +103,8 @@ def render(ev, ctx):
     c = CLIENTS[i]
     if k == 'C':
         return ('L', '%d C %s %d %s %d\n' % (i, c['addr'], c['port'], c['laddr'], c['lport']))
+    if k == 'C3':       # the same id announced from the same address but another port
+        return ('L', '%d C %s %d %s %d\n' % (i, c['addr'], c['port2'], c['laddr'], c['lport']))
     if k == 'C2':       # the same id announced from another address and port
         return ('L', '%d C %s %d %s %d\n' % (i, c['addr2'], c['port2'], c['laddr'], c['lport']))
     if k == 'N':
@@ -304,6 +306,8 @@ Inst = namedtuple('Inst', 'softdone have hurry owed expired modes creds stamp vo
 
 def caddr(c, inst):
     """(address, port) the server announced for this instance."""
+    if inst is not None and inst.alt == 'port':
+        return c['addr'], c['port2']
     if inst is not None and inst.alt:
         return c['addr2'], c['port2']
     return c['addr'], c['port']
@@ -425,12 +429,13 @@ def step(w, M, ev, ctx_pre, new_serial, out_lines, addr_check=True):
         ready_before = {s: ready(w, t, inst) for s, t in w.services}
 
     # ---- input effects ------------------------------------------------------------------------
-    if k in ('C', 'C2'):
+    if k in ('C', 'C2', 'C3'):
+        altv = {'C': False, 'C2': True, 'C3': 'port'}[k]
         if inst is not None:
             W.add('reannounce-live')
-            if inst.alt != (k == 'C2'):
+            if inst.alt != altv:
                 W.add('reannounce-other-address')
-        inst = fresh_inst()._replace(alt=(k == 'C2'))
+        inst = fresh_inst()._replace(alt=altv)
         serials[i] = new_serial
         st[i] = inst
         ready_before = {s: False for s, t in w.services}
